@@ -88,6 +88,23 @@ def assembly_body(c, spec, m, tag=""):
             r_num = m.eventRateVector(x, t)
             c.prove(shape_of(r_num) == (nE,), "eventRateVector(x,t) shape")
             c.prove(all_close(r_num, r_ref, c), "eventRateVector(x,t) == oracle")
+        # ---- a second point, then the first one again (an evaluator must be a function of its arguments:
+        #      nothing remembered from the previous call, the argument arrays left untouched) -------------
+        from .stoch import arr as _arr, snapshot, unchanged
+        env2 = dict(env)
+        for s_ in spec.states:
+            env2[s_] = c.real("x2_" + s_)
+        env2["t"] = c.real("t2")
+        x2 = _arr(c, [env2[s_] for s_ in spec.states])
+        xa = _arr(c, list(x))
+        before2, beforea = snapshot(x2), snapshot(xa)
+        f2 = m.ode(x2, env2["t"])
+        c.prove(all_close(f2, [expr.ev(e, env2) for e in spec.rhs()], c), "ode at a second point == oracle at that point")
+        if nE:
+            r2 = m.eventRateVector(x2, env2["t"])
+            c.prove(all_close(r2, [expr.ev(e, env2) for e in spec.rates()], c), "eventRateVector at a second point == oracle at that point")
+        c.prove(all_close(m.ode(xa, t), f_ref, c), "ode back at the first point == oracle (nothing remembered from the call in between)")
+        c.prove(unchanged(x2, before2, c) and unchanged(xa, beforea, c), "evaluators leave the state arrays they are given untouched")
     return f_sym, V_sym, p_sym, f_num
 
 
